@@ -1,6 +1,8 @@
 pub mod connexec;
 pub mod conngen;
 pub mod gram;
+pub mod fnexec;
+pub mod fngen;
 pub mod obs;
 pub mod respbuild;
 pub mod srvexec;
